@@ -13,6 +13,7 @@ import rules_misc  # noqa: F401
 import rules_wiring  # noqa: F401
 import rules_daemon  # noqa: F401
 import rules_pdu  # noqa: F401
+import rules_c05  # noqa: F401
 from props import PROPS
 
 
